@@ -386,6 +386,17 @@ def generate(unit, root, canary=False):
         for it in items:
             if isinstance(it, Raw):
                 _emit(gen, it.text)
+                # opt-in (unit readerrd): `raw.canary = dict(name=, text=, props=[..])` - a hand-written function that is VERIFIED (hand copy of a
+                # std default method over an extracted function) gets its vacuity copy as well: in the canary run `text` (the same function renamed
+                # `<name>__canary`, never called, with `false // [canary]` as last ensures clause) is emitted and registered like the copy of an Fn
+                cz = getattr(it, 'canary', None)
+                if canary and cz:
+                    key = 'raw::%s#canary' % cz['name']
+                    start = len(gen.lines) + 1
+                    _emit(gen, cz['text'], (key, None, None, True))
+                    gen.fns[key] = dict(file=None, scope=None, name=cz['name'], repo_line=None, gen_start=start, gen_end=len(gen.lines), sha_repo='',
+                                        sha_emitted=X.sha(cz['text']), rules=['hand-written text (Raw): canary copy'], props=list(cz.get('props', ())), canary=True,
+                                        external_body=False, gtag_props={}, extra_props=[], n_requires=0, n_ensures=0)
             elif isinstance(it, Copy):
                 _emit_copy(gen, root, it)
             elif isinstance(it, ByteConst):
